@@ -292,7 +292,7 @@ fn sweep_adjust(rep: &Reporter, c: &Counters) {
 /// end-to-end: divide error through the real binary
 fn cli_div_errors(rep: &Reporter, c: &Counters) {
     ensure_bin();
-    let mut cases: Vec<(String, String, usize)> = Vec::new(); // (name, source, line of the dividing instruction)
+    let mut cases: Vec<(String, String, usize, u8)> = Vec::new(); // (name, source, line of the dividing instruction, mode)
     for (w, op, kind) in [
         ("b", "div", "zero"),
         ("b", "div", "ovf"),
@@ -312,10 +312,17 @@ fn cli_div_errors(rep: &Reporter, c: &Counters) {
         let operand = if w == "b" { "bl" } else { "bx" };
         let nsetup = setup.lines().count();
         let src = format!("start:\nprint flags\n{}{} {}\nprint reg\nprint reg\n", setup, op, operand);
-        cases.push((format!("{} {} {}", op, w, kind), src, 2 + nsetup + 1));
+        cases.push((format!("{} {} {}", op, w, kind), src.clone(), 2 + nsetup + 1, 0));
+        // the same under single-stepping (every prompt answered with n): -i, and the trap flag set by the program
+        cases.push((format!("{} {} {} under -i", op, w, kind), src, 2 + nsetup + 1, 1));
+        let src_tf = format!("start:\nprint flags\nmov ax, 0x0100\npush ax\npopf\n{}{} {}\nprint reg\nprint reg\n", setup, op, operand);
+        cases.push((format!("{} {} {} under the trap flag", op, w, kind), src_tf, 5 + nsetup + 1, 2));
     }
-    cases.par_iter().for_each(|(name, src, line)| {
-        let o = run_cli(src, "", &CliOpts::default());
+    cases.par_iter().for_each(|(name, src, line, mode)| {
+        let mut opts = CliOpts::default();
+        opts.interpreted = *mode == 1;
+        let stdin = if *mode == 0 { String::new() } else { "n\n".repeat(40) };
+        let o = run_cli(src, &stdin, &opts);
         c.add_exec(1);
         c.states.fetch_add(1, Ordering::Relaxed);
         let out = o.out();
@@ -339,6 +346,13 @@ fn cli_div_errors(rep: &Reporter, c: &Counters) {
                 None => bad.push(("line".into(), format!("line {}", line), out.clone())),
             }
         }
+        // nothing happens after the report: no further prompt, no further output
+        if let Some(m) = re.find(&out) {
+            let rest = &out[m.end()..];
+            if rest.contains("About to execute") || rest.contains("Output of line") {
+                bad.push(("executed-after".into(), "nothing is executed or announced after the divide error".into(), format!("after the message: {:?}", rest)));
+            }
+        }
         let (_, secs) = sections(&out);
         if secs.len() != 1 {
             bad.push((
@@ -355,7 +369,7 @@ fn cli_div_errors(rep: &Reporter, c: &Counters) {
                 got_val: None,
                 expected: exp,
                 got,
-                case: json!({"src": src, "stdin": "", "args": []}),
+                case: json!({"src": src, "stdin": stdin, "interpreted": *mode == 1}),
                 weight: 0,
             });
         }
@@ -433,7 +447,7 @@ pub fn run(tier: &Tier) -> i32 {
     };
     let mut cov = Coverage::default();
     cov.exhaustive = true;
-    cov.rule = "every case = (source instruction, pre-state) executed through Preprocessor+Interpreter and compared with the reference MUL/DIV/BCD semantics (outcome NEXT vs INT 0, AX/DX, CF/OF, frame). Byte forms: all 256 AL x all 256 operands x a set of AH values (all 256 in thorough); word forms: (DX,AX,operand) boundary lattice cubed plus, for every divisor (every 7th in quick), the dividends at the quotient-overflow boundary; all 2^16 AX x AF x CF for the eight adjust instructions; every operand form incl. the implicit registers as explicit operand; 8 end-to-end divide-error programs through the CLI binary Word operands also run through 512 values away from the boundaries (every low byte under a fixed high byte and the reverse) against the lattice, both ways round, and through 8 fixed RELATIONS between the two operands (equal, low byte complemented, complemented, successor, bytes swapped, negated, doubled, halved+0x4000) for every 16-bit x. Histories: every sequence of up to 3 (thorough 4) instructions over the property's instructions plus a 22-instruction context alphabet (register, memory, stack and flag traffic, data-label operands, DS/ES loaded by pop and by mov), with at least one of the property's instructions, as ONE program on ONE machine and ONE Interpreter object from 3 initial states, compared with the reference after every step (whole memory on every 16th run)".into();
+    cov.rule = "every case = (source instruction, pre-state) executed through Preprocessor+Interpreter and compared with the reference MUL/DIV/BCD semantics (outcome NEXT vs INT 0, AX/DX, CF/OF, frame). Byte forms: all 256 AL x all 256 operands x a set of AH values (all 256 in thorough); word forms: (DX,AX,operand) boundary lattice cubed plus, for every divisor (every 7th in quick), the dividends at the quotient-overflow boundary; all 2^16 AX x AF x CF for the eight adjust instructions; every operand form incl. the implicit registers as explicit operand; 8 end-to-end divide-error programs through the CLI binary, each plain, single-stepped with -i and under a program-set trap flag (nothing may follow the report). Word operands also run through 512 values away from the boundaries (every low byte under a fixed high byte and the reverse) against the lattice, both ways round, and through 8 fixed RELATIONS between the two operands (equal, low byte complemented, complemented, successor, bytes swapped, negated, doubled, halved+0x4000) for every 16-bit x. Histories: every sequence of up to 3 (thorough 4) instructions over the property's instructions plus a 22-instruction context alphabet (register, memory, stack and flag traffic, data-label operands, DS/ES loaded by pop and by mov), with at least one of the property's instructions, as ONE program on ONE machine and ONE Interpreter object from 3 initial states, compared with the reference after every step (whole memory on every 16th run)".into();
     cov.bounds = json!({"ah_values": ahs.len(), "word_lattice": lat.len(), "divisor_stride": stride, "forms": fs.len(), "sequence_depth": seq_depth, "sequences": seq.sequences, "sequence_steps": seq.steps, "sequence_whole_memory_audits": seq.audits, "tier": tier.name()});
     cov.assumptions = common_assumptions();
     cov.assumptions.push("IDIV whose quotient is exactly -2^(w-1): divide error (8086) or result (later CPUs) both accepted".into());
